@@ -311,7 +311,7 @@ pub fn macros<'a, R: Reader<Offset = usize> + 'a>(
     offs.push(lad[(sel % lad.len() as u64) as usize] as usize);
     for &off in &offs {
         if let Some(mut it) = call_q(ctx, "macinfo.get_macinfo", || macinfo.get_macinfo(DebugMacinfoOffset(off))) {
-            drain(ctx, "macinfo.iter.next", ib.len(), Fused::No, || it.next(), |ctx, e| log_macro(ctx, &e));
+            drain(ctx, "macinfo.iter.next", ib.len(), Fused::Yes, || it.next(), |ctx, e| log_macro(ctx, &e));
         }
     }
     let macro_ = DebugMacro::from(mk(mb));
@@ -320,7 +320,7 @@ pub fn macros<'a, R: Reader<Offset = usize> + 'a>(
     offs.push(lad[(sel % lad.len() as u64) as usize] as usize);
     for &off in &offs {
         if let Some(mut it) = call_q(ctx, "macro.get_macros", || macro_.get_macros(DebugMacroOffset(off))) {
-            drain(ctx, "macro.iter.next", mb.len(), Fused::No, || it.next(), |ctx, e| log_macro(ctx, &e));
+            drain(ctx, "macro.iter.next", mb.len(), Fused::Yes, || it.next(), |ctx, e| log_macro(ctx, &e));
         }
     }
 }
